@@ -92,6 +92,9 @@ func (e *Enc) reset() {
 	e.axiomMemo = map[string]bool{}
 	e.atOrd = map[string]int{}
 	e.atOrdPat = map[string]int{}
+	if e.callKeys == nil {
+		e.callKeys = map[string]string{}
+	}
 	if e.famSorts == nil {
 		e.famSorts = map[string]string{}
 	}
